@@ -97,7 +97,7 @@ def _wrap_execute(cls):
         if getattr(self, "_vp_depth", 0) > 0:  # super().execute() of the same command
             return orig(self, **kw)
         name = self.result_name
-        EV.append({"ev": "exec_begin", "c": name})
+        EV.append({"ev": "exec_begin", "c": name, "kw": sorted(kw)})
         STACK.append(name)
         saved = getattr(self, "_vp_depth", 0)
         self._vp_depth = 1
